@@ -204,6 +204,15 @@ func (w *skWalker) nsrc(n ast.Node) string {
 				undoArgs = append(undoArgs, savedArgs{call, call.Args})
 				call.Args = []ast.Expr{&ast.Ident{Name: "…"}}
 			}
+			// likewise what is passed to a local closure (the call itself is an op of its own: `call F$closure`)
+			if id, ok := call.Fun.(*ast.Ident); ok && len(call.Args) > 0 {
+				if v, isVar := w.p.TypesInfo.Uses[id].(*types.Var); isVar && !v.IsField() && v.Parent() != nil && v.Pkg() != nil && v.Parent() != v.Pkg().Scope() {
+					if _, isFunc := v.Type().Underlying().(*types.Signature); isFunc {
+						undoArgs = append(undoArgs, savedArgs{call, call.Args})
+						call.Args = []ast.Expr{&ast.Ident{Name: "…"}}
+					}
+				}
+			}
 		}
 		return true
 	})
